@@ -126,8 +126,17 @@ def char_predicates(conds) -> List[Any]:
                 chars, st, en, leak, rep = regex_charset(pat)
                 anchored = (fn == 'fullmatch') or (fn == 'match' and en) or (fn == 'search' and st and en)
                 out.append(('regex:' + fn, chars if anchored else None, leak and fn != 'fullmatch', rep))
-        if isinstance(c, App) and c.op == 'mcall:match' or isinstance(c, App) and c.op == 'mcall:fullmatch':
-            pass
+        if isinstance(c, App) and c.op in ('mcall:match', 'mcall:fullmatch', 'mcall:search') and b and c.args \
+                and isinstance(c.args[0], App) and c.args[0].op == 'call:re.compile':
+            # a precompiled pattern (possibly a module-level constant): same predicate as re.<fn>(pattern, name)
+            fn = c.op[len('mcall:'):]
+            pat = c.args[0].args[0] if c.args[0].args else None
+            flags = c.args[0].args[1:]
+            subj = c.args[1] if len(c.args) > 1 else None
+            if isinstance(pat, str) and not flags and isinstance(subj, Sym) and subj.name == 'name':
+                chars, st, en, leak, rep = regex_charset(pat)
+                anchored = (fn == 'fullmatch') or (fn == 'match' and en) or (fn == 'search' and st and en)
+                out.append(('regex:' + fn, chars if anchored else None, leak and fn != 'fullmatch', rep))
     return out
 
 
